@@ -41,14 +41,14 @@ Proof. intros Sa Sb. cbn. apply bu_join_comm_lists; now apply bu_wf. Qed.
 
 (* ... and in the model, wherever both orders lie in the proved fragment (the
    asymmetric defects F-C04-3/4 are excluded by its side conditions) *)
-Lemma td_join_comm ds (Gn : graphs_nodup ds) pushed l l' a b g c :
+Lemma td_join_comm ds (Gn : graphs_nodup ds) (Dn : ds_nb ds) pushed l l' a b g c :
   frag (map fst (ds_named ds)) pushed (Join l a b) = true ->
   frag (map fst (ds_named ds)) pushed (Join l' b a) = true ->
-  NoDup g -> sol_wf c = true -> dom_in c pushed ->
+  gok g -> sol_wf c = true -> dom_in c pushed ->
   Permutation (eval_td ds g c (Join l a b)) (eval_td ds g c (Join l' b a)).
 Proof.
   intros F1 F2 Ng Wc Dc.
-  rewrite (pushdown ds Gn _ _ F1 g c Ng Wc Dc), (pushdown ds Gn _ _ F2 g c Ng Wc Dc).
+  rewrite (pushdown ds Gn Dn _ _ F1 g c Ng Wc Dc), (pushdown ds Gn Dn _ _ F2 g c Ng Wc Dc).
   apply join_ctx_perm. pose proof (frag_shape _ _ _ F1) as S. cbn in S. apply andb_true_iff in S as [Sa Sb].
   now apply bu_join_comm.
 Qed.
